@@ -39,7 +39,7 @@ Ltac consts :=
 
 (* normalise both sides, split the checked operations they share, close *)
 Ltac src_auto :=
-  consts; src_unfold_ops; src_norm; repeat (src_case; src_norm); src_close.
+  consts; src_unfold_ops; src_norm; repeat (try src_match_args; src_case; src_norm); src_close.
 
 (* ---- 1. generated = model ---- *)
 
@@ -83,8 +83,7 @@ Lemma src_align_pow2 m v k : 0 <= k <= 30 ->
   src_align m v (2 ^ k) = (s <- add32 m v (2 ^ k - 1) ;; Ok (s / 2 ^ k * 2 ^ k)).
 Proof. intros Hk. pose proof (pow2_bounds k ltac:(lia)) as Hp.
   assert (Hp2 : 2 ^ k <= 2 ^ 30) by (apply Z.pow_le_mono_r; lia). change (2 ^ 30) with 1073741824 in Hp2.
-  unfold src_align. src_unfold_ops.
-  rewrite !(chk32_ok m (2 ^ k - 1)) by src_side. src_norm.
+  unfold src_align. src_unfold_ops. src_norm. try src_match_args.
   apply bind_ext; intros a _. rewrite land_lnot_pow2m1 by lia. reflexivity. Qed.
 
 Lemma src_align_frame m v : src_align m v GenConsts.FRAME_ALIGNMENT = align32 m v.
@@ -115,8 +114,11 @@ Proof. unfold src_rotate_log, rotate_log. consts. src_unfold_ops.
   rewrite src_index_by_term_count_eq. src_norm.
   rewrite mul64_raw_tail by apply wrap32_range. src_norm.
   rewrite src_term_id_eq. src_norm.
-  rewrite Z.eqb_refl. rewrite (Z.eqb_sym (wrap32 (wrap32 (cur_term_id + 1) - 3))).
-  destruct (term_id_of _ =? _); reflexivity. Qed.
+  rewrite Z.eqb_refl.
+  (* the test on the term id of the tail just read, whichever way round it is written *)
+  repeat (try reflexivity;
+          match goal with |- context [Z.eqb ?a ?b] => destruct (Z.eqb_spec a b); cbn [negb] end);
+  try reflexivity; exfalso; congruence. Qed.
 
 Theorem src_model_agree m :
   (forall init active, src_index_by_term m init active = Ok (index_by_term init active)) /\
